@@ -90,6 +90,13 @@ def gen_plan(prop, seed, tier):
             # a curve that carries weights only, with strongly varying weights (a lossy refit may then change sign)
             spec["weights"] = [M.enc(Fraction(rng.choice([1, 1, 2, 5, 8, 1, 3]), rng.choice([1, 1, 3, 4, 5, 20]))) for _ in spec["weights"]]
         ops.append({"op": "create", "layout": layout, "src": rng.randrange(8), "spec": spec, "noctrl": noctrl})
+        if (not noctrl) and layout == "independent" and "weights" in spec and rng.random() < 0.35:
+            # a rational curve with strongly varying weights, a coarse empty curve on the same interval, and a fit of the
+            # coarse one to the rational one (the projected denominator may change sign: the fit must then fail atomically)
+            spec["weights"] = [M.enc(Fraction(rng.choice([1, 1, 2, 5, 8, 1, 3]), rng.choice([1, 1, 3, 4, 5]))) for _ in spec["weights"]]
+            ops.append({"op": "create", "layout": "coarse-of", "src": -1, "spec": {"p": rng.randint(0, 2)}, "noctrl": True,
+                        "prefill": rng.random() < 0.5})
+            ops.append({"op": "fit_curve", "a": -1, "b": -2, "faulty": False, "r": rng.randrange(1 << 30)})
         if noctrl and layout == "independent" and "weights" in spec:
             # forced (lossy) changes of the knot vector of the weights-only curve just created (a = -1: the newest curve)
             for _ in range(rng.randint(1, 3)):
@@ -318,6 +325,14 @@ class CurveEngine:
                 self.remember(pts)
                 new = self.Curve(kvobj, pts, ws)
                 ctx.probe("layout-" + layout)
+            elif layout == "coarse-of":
+                src = self.world[op["src"] % len(self.world)]
+                lo, hi = src.knotvector.limits
+                q = spec["p"]
+                new = self.Curve([lo] * (q + 1) + [hi] * (q + 1))
+                if op.get("prefill"):
+                    new.ctrlpoints = [self.mkpoint([j, -j]) for j in range(q + 1)]     # something to lose if the fit is not atomic
+                ctx.probe("layout-coarse-of")
             elif layout == "elevated-line":
                 # a straight segment or polyline whose degree was raised by the library: every Bezier piece is reducible,
                 # so a "non-mutating" operation that cleans its pieces must not be working on the operand itself
